@@ -1147,6 +1147,12 @@ async def async_fifo_stream(
                     try:
                         xx = preprocessor(x)
                     except Exception as e:
+                        if isinstance(e, StopIteration):
+                            # An `asyncio.Future` refuses this class (that would end the whole
+                            # stream with a `TypeError`); deliver it the way a generator would.
+                            ee = RuntimeError('the preprocessor raised StopIteration')
+                            ee.__cause__ = e
+                            e = ee
                         t = asyncio.Future()
                         t.set_exception(e)
                     else:
